@@ -426,11 +426,27 @@ static int on_node(struct aws_xml_node *node, void *ud) {
 }
 
 // A parse that does not return is a violation too (no element is reported, no error is returned).  A case takes
-// well under a millisecond; after 10 s SIGALRM ends the process, which the driver treats like a crash inside the
-// case (it re-runs the seed with one forked child per case, where the same alarm ends only the child).
+// well under a millisecond; after 1 s of CPU time the process ends with a message and status 14, which the driver treats like
+// a crash inside the case (it re-runs the seed with one forked child per case, where this ends only the child).
+#include <csignal>
+#include <sys/time.h>
+static void on_alarm(int) {
+    static const char m[] = "C12: aws_xml_parse did not return within 1 s of CPU time on the journalled case (hang)\n";
+    (void)!write(2, m, sizeof m - 1);
+    _exit(14);
+}
 struct HangGuard {
-    HangGuard() { alarm(10); }
-    ~HangGuard() { alarm(0); }
+    static void arm(long secs) { // user CPU time of this process, so that machine load cannot trigger it
+        struct itimerval tv;
+        memset(&tv, 0, sizeof tv);
+        tv.it_value.tv_sec = secs;
+        setitimer(ITIMER_VIRTUAL, &tv, nullptr);
+    }
+    HangGuard() {
+        signal(SIGVTALRM, on_alarm);
+        arm(1);
+    }
+    ~HangGuard() { arm(0); }
 };
 
 static void run(const Case &c, Ctx &ctx) {
@@ -519,6 +535,7 @@ static void run(const Case &c, Ctx &ctx) {
     opt.user_data = &rs.levels[0];
 
     R = &rs;
+    fflush(stdout);
     aws_reset_error();
     int rc = aws_xml_parse(galloc::full(), &opt);
     int err = aws_last_error();
